@@ -601,6 +601,151 @@ class P(Prop):
                 c["twice"] = True
         return c
 
+    # ---------------------------------------------------------------- 'ext': Filter.execute over Python's numbers
+    # (Model/FilterExt.lean: scalar Ext Rat = rationals + inf, -inf, nan). Case: {"kind": "ext", "sc": "r", "sig": [...],
+    # "k": {"t": "list", "w": [...]} | a Kernel object of RATIONAL_KERNELS / dirac, "via": "list" | "feat"}; values are
+    # dyadic numbers, None (NaN), "inf", "-inf". via = "feat": the weights are the values of the feature "w" (as many
+    # as observations) and the kernel is given by its name.
+    EXT_WEIGHT_LISTS = [[1, -1, 0], [0, 0, 0], [1, 0, -1], [2, -1, -1], [-1, 2, -1], [1, 1, -2, 0, 0], [0.5, -0.5, 0], [1, -2, 2],
+                        [1, -2, 1.5], [-1, -2, -1], [3, -1, 0], [1, -1, 1], [1, 2, -1, -1, 1], [1, None, 1], [None, None, None],
+                        [1, 2, None, 2, 1], [1, "inf", 1], [1, "-inf", 2], ["inf", "-inf", 1], [0, 0, 0, 0, 0]]
+
+    def ext_tok(self, a):
+        return "nan" if a is None else (a if isinstance(a, str) else ratstr(a))
+
+    def ext_val(self, t):
+        if t == "nan":
+            return None
+        if t in ("inf", "-inf"):
+            return float(t)
+        return float(Fraction(t))
+
+    def ext_class(self, case):
+        """which of the situations of Model/FilterExt.lean the input is in (decided on the input alone)"""
+        k = case["k"]
+        tags = []
+        if k["t"] == "list":
+            w = k["w"]
+            if any(a is None for a in w):
+                tags.append("nan_weight")
+            elif any(isinstance(a, str) for a in w):
+                tags.append("inf_weight")
+            else:
+                if sum(Fraction(a) for a in w) == 0:
+                    tags.append("zero_total")
+                if any(a < 0 for a in w):
+                    tags.append("negative_weight")
+        if any(isinstance(a, str) for a in case["sig"]):
+            tags.append("inf_sample")
+        return tags or ["plain"]
+
+    def ext_cases(self, rng, quick):
+        out = []
+        # every weight list of EXT_WEIGHT_LISTS on every signal over {1, 3, NaN, inf} of length N..N+1 (lists) -- bounded
+        for w in self.EXT_WEIGHT_LISTS:
+            n = len(w)
+            for v in itertools.product([1, 3, None, "inf"], repeat=n):
+                if len(out) % (1 if n == 3 else 9) == 0 or n == 3:
+                    out.append({"kind": "ext", "sc": "r", "sig": list(v), "k": {"t": "list", "w": list(w)}, "via": "list"})
+        vals = [0, 1, 2, -1, 0.5, 3, 4, -2.5, 8]
+        for _ in range(500 if quick else 5000):
+            D = rng.choice([1, 1, 1, 2, 3])
+            N = 2 * D + 1
+            r = rng.random()
+            if r < 0.35:        # zero total, any signs
+                w = [rng.choice([-2, -1, 0, 0, 1, 2, 0.5, -0.5]) for _ in range(N - 1)]
+                w.insert(rng.randrange(N), -sum(w))
+            elif r < 0.6:       # negative weights; the total is +/- a power of two, so that the normalised weights are dyadic and a
+                #                     collected norm that cancels exactly in the rationals cancels exactly in floating point too
+                w = [rng.choice([-2, -1, 0, 1, 2, 3, 0.5, -0.5]) for _ in range(N - 1)]
+                w.insert(rng.randrange(N), rng.choice([1, 2, 4, 8, 0.5, -1, -2, -4]) - sum(w))
+            elif r < 0.75:      # a NaN / an infinite weight
+                w = [rng.choice([0, 1, 2, 0.5]) for _ in range(N)]
+                w[rng.randrange(N)] = rng.choice([None, None, "inf", "-inf"])
+            else:               # positive weights (the property's kernels), infinite samples
+                w = [rng.choice([1, 2, 3, 0.5, 0.25]) for _ in range(N)]
+            via = "feat" if rng.random() < 0.25 else "list"
+            n = N if via == "feat" else N + rng.choice([-2, -1, 0, 0, 1, 2, 3, 5])
+            if n < 1:
+                n = 1
+            v = [rng.choice(vals) for _ in range(n)]
+            for _ in range(rng.choice([0, 0, 1, 1, 2, n])):
+                v[rng.randrange(n)] = rng.choice([None, None, "inf", "-inf"])
+            if r >= 0.75 and not any(isinstance(a, str) for a in v):
+                v[rng.randrange(n)] = rng.choice(["inf", "-inf"])
+            out.append({"kind": "ext", "sc": "r", "sig": v, "k": {"t": "list", "w": w}, "via": via})
+        # Kernel objects (Python-float windows) on signals holding infinite samples
+        for _ in range(150 if quick else 1500):
+            t = rng.choice(RATIONAL_KERNELS + ("dirac",))
+            k = {"t": t, "fb": self.rand_fb(rng)}
+            if t != "dirac":
+                k["p"] = rng.choice([1, 2, 3, 1.5, 2.5])
+            N = len(shape_weights(k))
+            n = max(1, N + rng.choice([-1, 0, 0, 1, 2, 4]))
+            v = [rng.choice(vals) for _ in range(n)]
+            for _ in range(rng.choice([1, 1, 2, 3])):
+                v[rng.randrange(n)] = rng.choice([None, "inf", "inf", "-inf"])
+            out.append({"kind": "ext", "sc": "r", "sig": v, "k": k, "via": "list"})
+        return out
+
+    def ext_impl(self, case):
+        v, k = case["sig"], case["k"]
+        t = self.mk_track([float(i) for i in range(len(v))])
+        t.createAnalyticalFeature("a", [num(a) for a in v])
+        if case["via"] == "feat":
+            t.createAnalyticalFeature("w", [num(a) for a in k["w"]])
+            kern = "w"
+        elif k["t"] == "list":
+            kern = [num(a) for a in k["w"]]
+        else:
+            kern = self.mk_kernel(k)
+        ret = t.operate(self.Operator.FILTER, "a", kern, "b")
+        res = {"out": [canon(a) for a in t.getAnalyticalFeature("b")], "ret": [canon(a) for a in ret],
+               "kafter": [canon(a) for a in kern] if isinstance(kern, list) else None,
+               "input_after": [canon(a) for a in t.getAnalyticalFeature("a")]}
+        if case["via"] == "feat":
+            res["weights_after"] = [canon(a) for a in t.getAnalyticalFeature("w")]
+        return res
+
+    def ext_requests(self, case):
+        k = case["k"]
+        ks = "list " + tok_list(self.ext_tok(a) for a in k["w"]) if k["t"] == "list" else self.kspec("r", k)
+        return ["C15.execx r %s %s" % (tok_list(self.ext_tok(a) for a in case["sig"]), ks)]
+
+    def ext_decode(self, case, replies):
+        r = replies[0].split(" ")
+        if r[0] != "ok":
+            return {"err": r[0]}
+        out = [self.ext_val(t) for t in untok(r[2])]
+        res = {"out": out, "ret": out, "input_after": [canon(num(a)) for a in case["sig"]],
+               "kafter": None if (r[1] == "none" or case["via"] == "feat") else [self.ext_val(t) for t in untok(r[1])]}
+        if case["via"] == "feat":
+            res["weights_after"] = [canon(num(a)) for a in case["k"]["w"]]      # a fresh list is normalised, not the feature
+        return res
+
+    def ext_spec(self, case, out):
+        """what the PROPERTY says of these inputs: it speaks of non-negative kernels and of weighted means of real numbers.
+        Non-negative finite weights with a positive total (and every Kernel object): the windows holding no infinite sample
+        are judged (check_nonfinite), when every window keeps a positive valid weight. Anything else (a zero / NaN / infinite
+        total, a negative weight) is outside the statement: correspondence with the model only (theorems
+        list_zero_or_nan_total, nonfinite_weights_nan say what is returned)."""
+        k = case["k"]
+        if k["t"] == "list":
+            w = k["w"]
+            if any(not finite(a) for a in w) or any(a < 0 for a in w) or sum(w) <= 0:
+                return None
+            w, fb = [Fraction(a) for a in w], False
+        else:
+            w, fb = shape_weights(k), bool(k.get("fb"))
+        v = case["sig"]
+        if not domain_ok(w, [0 if isinstance(a, str) else a for a in v], fb) or index_zone(w, fb, len(v)):
+            return None
+        if "err" in out:
+            return "raised %s (%s) inside the domain" % (out["err"], out.get("detail", ""))
+        if out["input_after"] != [canon(num(a)) for a in v]:
+            return "the input feature was modified: %r" % out["input_after"]
+        return check_nonfinite(w, v, fb, out["out"], "feature")
+
     def cases(self, rng, tier):
         out = []
         quick = tier == "quick"
@@ -805,6 +950,7 @@ class P(Prop):
         # ---- outside the domain: refused kernels, names and tracks (correspondence only)
         for _ in range(150 if quick else 1500):
             out.append(self.rand_bad(rng))
+        out.extend(self.ext_cases(rng, quick))
         return out
 
     def rand_op(self, rng):
@@ -955,6 +1101,8 @@ class P(Prop):
 
     def describe(self, case):
         kind = case["kind"]
+        if kind == "ext":
+            return {"kind": kind, "kernel": case["k"]["t"], "scalar": "r", "via": case["via"], "ext": "+".join(self.ext_class(case))}
         if kind == "session":
             t = {"kind": kind, "scalar": case["sc"], "steps": len(case["steps"]), "prebuilt_kernels": bool(case.get("prebuild")),
                  "apis": "+".join(sorted({st["api"] for st in case["steps"]})),
@@ -1016,6 +1164,8 @@ class P(Prop):
 
     def nontrivial(self, case):
         kind = case["kind"]
+        if kind == "ext":
+            return False
         if kind == "sw":
             return True
         if kind in ("zeronorm", "badk"):
@@ -1181,6 +1331,8 @@ class P(Prop):
 
     def impl_raw(self, case):
         kind = case["kind"]
+        if kind == "ext":
+            return self.ext_impl(case)
         if kind == "sw":
             return {"window": self.window_of(case["k"])}
         if kind in ("feat", "zeronorm", "short", "zerow", "inff"):
@@ -1327,6 +1479,8 @@ class P(Prop):
 
     def _requests(self, case):
         kind, sc = case["kind"], case["sc"]
+        if kind == "ext":
+            return self.ext_requests(case)
         if kind == "sw" or (kind == "badk" and "dims" not in case):
             return ["C15.sw %s %s" % (sc, self.kspec(sc, case["k"]))]
         if kind in ("feat", "zeronorm", "short", "zerow", "inff"):
@@ -1421,6 +1575,8 @@ class P(Prop):
         kind, sc = case["kind"], case["sc"]
         if any(r == "bad-request" or r.startswith("bad-request ") or " # bad-request" in r for r in replies):
             raise ValueError("bad-request")
+        if kind == "ext":
+            return self.ext_decode(case, replies)
         if kind == "sw" or (kind == "badk" and "dims" not in case):
             r = replies[-1].split(" ")
             if r[0] != "ok":
@@ -1569,6 +1725,8 @@ class P(Prop):
 
     def spec(self, case, out):
         kind = case["kind"]
+        if kind == "ext":
+            return self.ext_spec(case, out)
         if kind in ("zeronorm", "badk") or (kind == "opl" and not case["judge"]):
             return None  # outside the domain of the property (a window without valid weight / a refused call / a form of
             #              the list arguments whose final track the property does not describe)
@@ -1705,10 +1863,19 @@ class P(Prop):
 
     # ---------------------------------------------------------------- shrinking / search
     def _sig_names(self, case):
-        return ["sig"] if case["kind"] in ("feat", "zeronorm", "short", "zerow", "inff") else ["x", "y", "z"]
+        return ["sig"] if case["kind"] in ("feat", "zeronorm", "short", "zerow", "inff", "ext") else ["x", "y", "z"]
 
     def shrink(self, case):
         kind = case["kind"]
+        if kind == "ext":
+            v = case["sig"]
+            if case["via"] == "list" and len(v) > 1:
+                for i in range(len(v)):
+                    yield dict(case, sig=v[:i] + v[i + 1:])
+            for i in range(len(v)):
+                if finite(v[i]) and v[i] not in (0, 1):
+                    yield dict(case, sig=v[:i] + [1] + v[i + 1:])
+            return
         if kind == "sw":
             k = case["k"]
             if k["t"] == "user":
@@ -1843,6 +2010,12 @@ class P(Prop):
 
     def mutate(self, case, rng):
         kind = case["kind"]
+        if kind == "ext":
+            v = case["sig"]
+            for _ in range(12):
+                i = rng.randrange(len(v))
+                yield dict(case, sig=v[:i] + [rng.choice([0, 1, 2, -1, 0.5, 4, None, "inf", "-inf"])] + v[i + 1:])
+            return
         if kind == "sw":
             if "p" in case["k"]:
                 for p in self.WIDTHS:
